@@ -333,6 +333,7 @@ def hdr_body(ctx, start, offsets):
         conn = ConnectionBase(True, ("h", 1))
         conn.clock = lambda: now[0]
         conn.status = ConnectionStatus.CONNECTED
+        conn.session_key_bytes = b"K" * 16     # an established session: datagrams are sealed
         base = M * 4 + start
         newest = None
         accepted = set()   # integer-line positions accepted by the endpoint (model)
@@ -344,7 +345,7 @@ def hdr_body(ctx, start, offsets):
             msgseq += 1
             hdr = PacketHeader.create(False, int(now[0]), PacketType.APP, SeqNum(ring(pos)), SeqNum(0), 0)
             pkt = Packet.create(hdr, [PendingMessage(SeqNum(ring(msgseq)), PacketType.APP, b"x", None, 0)])
-            dg = pkt.to_bytes(None)
+            dg = pkt.to_bytes(conn.session_key_bytes)
             rhdr = PacketHeader.from_bytes(True, dg)
             ok = conn._recv_datagram(rhdr, dg)
             # model: accepted iff not already accepted inside the window [newest-32, newest]; a datagram older
